@@ -1,12 +1,224 @@
-/- C20 — property theorems (filled below). -/
-import SkNet.Lemmas.XmlParse
+/-
+C20 — drawings are well-formed SVG showing every node and edge once.
+
+Property theorems about the model of sknetwork/visualization (Model/Svg.lean, Model/Xml.lean) and the
+specification (Spec/Xml.lean: recogniser `wf` of well-formed XML; Spec/Svg.lean: expected content).
+Printed numbers are arbitrary attribute-safe tokens (`SafeNums ν`), colours given as options are attribute-safe
+strings; names are arbitrary lists of code points.
+-/
+import SkNet.Lemmas.SvgDoc
 import SkNet.Spec.Svg
 
 namespace SkNet.C20
 open SkNet SkNet.Svg
 
-/-- Well-formedness of a rendered document reduces to nesting of its pieces. -/
-theorem wf_of_render (ps : List Piece) (h : piecesLexOk ps = true) : wf (render ps) = balanced ps [] false :=
+/-! ## ★ `render_wf` : a document whose pieces are lexically sound and nested is recognised as well formed -/
+
+/-- Well-formedness of a rendered document is exactly nesting of its pieces: the recogniser reads back the very
+    pieces that were rendered (`parseDoc_render`), for every piece list whose names, attribute values and
+    character data are lexically sound. -/
+theorem render_wf (ps : List Piece) (h : piecesLexOk ps = true) : wf (render ps) = balanced ps [] false :=
   wf_render ps h
+
+/-- The recogniser reads back exactly the rendered pieces. -/
+theorem parse_render_roundtrip (ps : List Piece) (h : piecesLexOk ps = true) : parseDoc (render ps) = some ps :=
+  parseDoc_render ps h
+
+example : piecesLexOk [.otag py!"svg" [att py!"width" py!"4.5"] [], .chr 10, .etag py!"circle" [] [],
+    .otag py!"text" [] [], .ref py!"lt", .chr 233, .ctag py!"text" [], .ctag py!"svg" [], .chr 10] = true := by decide
+
+/-! ## ★ `sanitise_safe` : the text inserted for a name is character data, for every string -/
+
+/-- For *every* string (any code points: markup characters, control characters, lone surrogates, …) the pieces
+    `svg_escape` produces are lexically sound character data that can stand inside any element. -/
+theorem sanitise_safe (s : PyStr) : Inner (escape s) := escape_inner s
+
+/-- …and so the string itself is accepted by the recogniser as the content of an element. -/
+theorem sanitise_wf (s : PyStr) :
+    wf (render (.otag py!"text" [] [] :: (escape s ++ [.ctag py!"text" []]))) = true := by
+  have hi : Inner (.otag py!"text" [] [] :: (escape s ++ [.ctag py!"text" []])) :=
+    Inner.elem (by decide) rfl rfl rfl (escape_inner s)
+  have hlex : piecesLexOk (.otag py!"text" [] [] :: (escape s ++ [.ctag py!"text" []])) = true := hi.1
+  rw [wf_render _ hlex]
+  have := (escape_inner s).2 py!"text" [] [.ctag py!"text" []]
+  simp only [balanced, List.isEmpty_nil, Bool.true_and, Bool.and_false, Bool.not_false, attrsUnique] at this ⊢
+  rw [this]
+  decide
+
+/-- The sanitisers of the pinned tree were **not** safe (F15, repaired by 9c96c7f6): the dendrogram functions
+    replaced only `&`, so a name containing `<` was copied into the document … -/
+theorem old_dendrogram_sanitiser_unsafe :
+    wf (render (.otag py!"text" [] [] :: (oldSanitiseDendro py!"a<b" ++ [.ctag py!"text" []]))) = false := by decide
+
+/-- … and no function removed the characters XML cannot represent (here U+0001 in a graph name). -/
+theorem old_graph_sanitiser_unsafe :
+    wf (render (.otag py!"text" [] [] :: (oldSanitiseGraph [120, 1, 121] ++ [.ctag py!"text" []]))) = false := by
+  decide
+
+/-! ## ★ the returned string is a well-formed XML document, whatever the names -/
+
+/-- the colour options of `visualize_graph` can stand in an attribute -/
+structure SafeGraphArgs (a : GraphArgs) : Prop where
+  nodeColor : SafeStr a.nodeColor
+  edgeColor : ∀ c, a.edgeColor = some c → SafeStr c
+  labelColors : SafeLabelColors a.labelColors
+
+/-- `visualize_graph`: for every graph, layout, names (arbitrary code points), labels, scores, membership matrix,
+    edge labels, node order, sizes and flags — whenever the function returns, the returned string is a well-formed
+    XML document. -/
+theorem visualizeGraph_wf (ν : Nums) (a : GraphArgs) (d : Drawing) (hν : SafeNums ν) (ha : SafeGraphArgs a)
+    (h : visualizeGraph ν a = .ok d) : wf (render d.svg) = true := by
+  unfold visualizeGraph at h
+  simp only [bind, Except.bind, pure, Except.pure] at h
+  split at h
+  · simp at h
+  split at h
+  · simp at h
+  rename_i nodeColors hcolors
+  split at h
+  · simp at h
+  rename_i pos hpos
+  split at h
+  · simp at h
+  rename_i edges hedges
+  split at h
+  · simp at h
+  rename_i nodes hnodes
+  split at h
+  · simp at h
+  rename_i text htext
+  simp only [Except.ok.injEq] at h
+  subst h
+  have hcs := getNodeColors_safe hν ha.nodeColor ha.labelColors hcolors
+  exact svgDoc_wf hν _ _ (Inner.append (graphEdges_inner hν a pos ha.edgeColor ha.labelColors hedges)
+    (Inner.append (graphNodes_inner hν _ _ _ hcs hnodes) (namesText_inner hν _ _ _ _ htext)))
+
+/-- every number printed as `#` (what the correspondence runs use) -/
+def νhash : Nums := fun _ _ _ => [35]
+
+theorem νhash_safe : SafeNums νhash := fun _ _ _ => (by decide : SafeStr [35])
+
+/-- a directed triangle with a coincident pair of nodes, hostile names, labels and an edge label on a non-edge -/
+def exampleGraph : GraphArgs :=
+  { n := 3, entries := [(0, 1, 1), (1, 2, 2), (2, 0, 1)], pos := [(0, 0), (1, 0), (1, 0)],
+    names := some [py!"a<", py!"b&\"", [99, 1, 233, 0xD800]], labels := some (.arr [0, -1, 4] true),
+    edgeLabels := [(0, 1, 1), (2, 1, 3)] }
+
+example : SafeGraphArgs exampleGraph := ⟨by decide, by intro c h; simp [exampleGraph] at h, trivial⟩
+/-- the example is drawn (the function returns, with 43 pieces) -/
+example : (match visualizeGraph νhash exampleGraph with | .ok d => d.svg.length | .error _ => 0) = 43 := by
+  decide +kernel
+
+
+/-- the colour options of `visualize_bigraph` can stand in an attribute -/
+structure SafeBigraphArgs (a : BigraphArgs) : Prop where
+  colorRow : SafeStr a.colorRow
+  colorCol : SafeStr a.colorCol
+  edgeColor : ∀ c, a.edgeColor = some c → SafeStr c
+  labelColors : SafeLabelColors a.labelColors
+
+/-- `visualize_bigraph`: whenever the function returns, the returned string is a well-formed XML document —
+    for every biadjacency matrix, names of rows and columns (arbitrary code points) and options. -/
+theorem visualizeBigraph_wf (ν : Nums) (a : BigraphArgs) (d : Drawing) (hν : SafeNums ν) (ha : SafeBigraphArgs a)
+    (h : visualizeBigraph ν a = .ok d) : wf (render d.svg) = true := by
+  unfold visualizeBigraph at h
+  simp only [bind, Except.bind, pure, Except.pure] at h
+  split at h
+  · simp at h
+  rename_i colorsRow hrow
+  split at h
+  · simp at h
+  rename_i colorsCol hcol
+  split at h
+  · simp at h
+  split at h
+  · simp at h
+  split at h
+  · simp at h
+  rename_i edges hedges
+  split at h
+  · simp at h
+  rename_i nodesRow hnr
+  split at h
+  · simp at h
+  rename_i nodesCol hnc
+  split at h
+  · simp at h
+  rename_i textRow htr
+  split at h
+  · simp at h
+  rename_i textCol htc
+  simp only [Except.ok.injEq] at h
+  subst h
+  have h1 := getNodeColors_safe hν ha.colorRow ha.labelColors hrow
+  have h2 := getNodeColors_safe hν ha.colorCol ha.labelColors hcol
+  exact svgDoc_wf hν _ _ (Inner.append (bigraphEdges_inner hν a ha.edgeColor ha.labelColors hedges)
+    (Inner.append (nodeLoop_inner hν _ _ _ h1 hnr) (Inner.append (nodeLoop_inner hν _ _ _ h2 hnc)
+      (Inner.append (namesText_inner hν _ _ _ _ htr) (namesText_inner hν _ _ _ _ htc)))))
+
+def exampleBigraph : BigraphArgs :=
+  { nRow := 1, nCol := 2, entries := [(0, 0, 0), (0, 1, 1)], namesRow := some [py!"<r>"],
+    namesCol := some [py!"'", [11, 0xFFFF]], probsCol := some ⟨2, [[(0, 1/2), (1, 1/2)], []]⟩ }
+
+example : SafeBigraphArgs exampleBigraph :=
+  ⟨by decide, by decide, by intro c h; simp [exampleBigraph] at h; subst h; decide, trivial⟩
+/-- the example is drawn (the function returns, with 26 pieces) -/
+example : (match visualizeBigraph νhash exampleBigraph with | .ok d => d.svg.length | .error _ => 0) = 26 := by
+  decide +kernel
+
+
+/-- the colour options of `visualize_dendrogram` can stand in an attribute -/
+structure SafeDendroArgs (a : DendroArgs) : Prop where
+  color : SafeStr a.color
+  colors : AllSafe a.colors
+
+/-- `visualize_dendrogram` (root on top or on the left): whenever the function returns, the returned string is a
+    well-formed XML document — for every dendrogram, leaf names (arbitrary code points) and options. -/
+theorem visualizeDendrogram_wf (ν : Nums) (a : DendroArgs) (d : Drawing) (hν : SafeNums ν) (ha : SafeDendroArgs a)
+    (h : visualizeDendrogram ν a = .ok d) : wf (render d.svg) = true := by
+  unfold visualizeDendrogram svgDendrogram at h
+  simp only [bind, Except.bind, pure, Except.pure] at h
+  split at h
+  · simp at h
+  rename_i svg hsvg
+  split at hsvg
+  · simp at hsvg
+  rename_i index hindex
+  split at hsvg
+  · simp at hsvg
+  rename_i text htext
+  split at hsvg
+  · simp at hsvg
+  rename_i paths hpaths
+  simp only [Except.ok.injEq] at hsvg h
+  subst hsvg
+  subst h
+  exact svgDoc_wf hν _ _ (Inner.append (dendroNames_inner hν a index htext)
+    (dendroTree_inner hν a ha.color ha.colors index hpaths))
+
+def exampleDendro : DendroArgs :=
+  { merges := [(0, 1), (2, 3)], cutLabels := [0, 0, 1], names := some [py!"a<b", py!"b", py!"c&"] }
+
+example : SafeDendroArgs exampleDendro := ⟨by decide, standardColors_safe⟩
+/-- the example is drawn (the function returns, with 20 pieces) -/
+example : (match visualizeDendrogram νhash exampleDendro with | .ok d => d.svg.length | .error _ => 0) = 20 := by
+  decide +kernel
+
+
+/-! ## ★ `file_same` : the string written is the string returned -/
+
+/-- Whatever is drawn, the file `filename + '.svg'` receives exactly the returned string. -/
+theorem file_same (filename : PyStr) (svg : List Piece) :
+    (writeFile (some filename) svg).file = some (filename ++ py!".svg", render (writeFile (some filename) svg).svg) :=
+  rfl
+
+theorem visualizeGraph_file_same (ν : Nums) (a : GraphArgs) (d : Drawing) (f : PyStr) (hf : a.filename = some f)
+    (h : visualizeGraph ν a = .ok d) : d.file = some (f ++ py!".svg", render d.svg) := by
+  unfold visualizeGraph at h
+  simp only [bind, Except.bind, pure, Except.pure] at h
+  repeat' split at h
+  all_goals first
+    | (simp at h; done)
+    | (simp only [Except.ok.injEq] at h; subst h; simp [writeFile, hf])
 
 end SkNet.C20
